@@ -14,6 +14,10 @@ def run(ctx):
     ctx.model_check("MC_CharGen", "MC_CharGen.cfg", "CharGen: OutValid, NoOutputUnlessDone, ErrIff over the recipe universe", workers=vlib.NCPU)
     ctx.model_check("MC_CharSets", "MC_CharSets.cfg", "all 2^15 class-flag triples x custom variants: exclusion wins, alphabet = (allowed + required) - excluded, "
                     "sorted listing is duplicate-free", workers=vlib.NCPU)
+    nob = ctx.tlapm("CharSetsProofs", timeout=300)
+    ctx.cover["tlapm"] = ("CharSetsProofs.tla: %d obligations proved for EVERY recipe record (unbounded): exclusion wins, required sets lie in the "
+                          "alphabet, alphabet within (allowed + required) - excluded, a valid string has no excluded character and meets every "
+                          "live required set" % nob)
     triples = charfam.flag_triples(rng, 900 if quick else 0, exhaustive=not quick)
     scen = []
     for (a, r, x) in triples:
